@@ -105,6 +105,11 @@ def scalar_typing(a):
                     "parser's result and carries the scalar's own location; exactly one value is pushed")
     if c:
         c["replay"] = replay_scalars(a)
+        if not c["replay"].get("reproduced"):
+            # the obligation also covers the location attached to the value: second recipe
+            r2 = replay_yaml_positions(a)
+            if r2.get("reproduced"):
+                c["replay"] = r2
         c["reproduced"] = c["replay"].get("reproduced", False)
         a.candidates.append(c)
 
@@ -561,4 +566,105 @@ def replay_short_form_loaders(a):
         shutil.rmtree(d, ignore_errors=True)
 
 
-SITES = {"C11": [scalar_typing, type_ref, short_form_tables, serde_number_typing, short_form_loader_agreement], "C16": [serde_number_typing, short_form_loader_agreement]}
+def replay_yaml_positions(a):
+    """YAML scalars of every style: the [L:..,C:..] reported for a failing value is where that scalar starts in the file
+    (for a block scalar: its `|` / `>` indicator), 0-based as libyaml counts"""
+    import json
+    exe = a.cli()
+    if not exe:
+        return {"reproduced": False, "note": "native build failed"}
+    text = ("a: 1\nz: |\n  text\n  more\nf: >-\n  folded\n  lines\nq: \"quoted\"\ns: 'single'\np: plain\nm:\n  inner: |-\n    deep\n  k: v\n"
+            "l:\n  - |\n    item\n  - two\n")
+    rules = ("rule t {\n  a == 2\n  z == \"x\"\n  f == \"x\"\n  q == \"x\"\n  s == \"x\"\n  p == \"x\"\n  m.inner == \"x\"\n  m.k == \"x\"\n"
+             "  l[0] == \"x\"\n  l[1] == \"x\"\n}\n")
+    rc, rep, err = a.run_structured(exe, rules, [text])
+    if not (rep and isinstance(rep, list) and rep):
+        return {"reproduced": False, "note": "no report", "exit": rc, "stderr": (err or "")[-200:]}
+    lines = text.splitlines()
+    want = {}
+    for path, lineno, key in (("/a", 0, "a: "), ("/z", 1, "z: "), ("/f", 4, "f: "), ("/q", 7, "q: "), ("/s", 8, "s: "), ("/p", 9, "p: "),
+                              ("/m/inner", 11, "  inner: "), ("/m/k", 13, "  k: "), ("/l/0", 15, "  - "), ("/l/1", 17, "  - ")):
+        assert lines[lineno].startswith(key), (lineno, lines[lineno])
+        want[path] = (lineno, len(key))
+    blob = json.dumps(rep[0])
+    got = {}
+    for m in re.finditer(r"Path=(/[^\[\]]*)\[L:(\d+),C:(\d+)\]", blob):
+        got.setdefault(m.group(1), set()).add((int(m.group(2)), int(m.group(3))))
+    out = []
+    for pth, pos in want.items():
+        if pth not in got:
+            out.append({"path": pth, "problem": "not reported"})
+        elif got[pth] != {pos}:
+            out.append({"path": pth, "expected_line_col": list(pos), "reported": sorted(got[pth]), "source_line": lines[pos[0]]})
+    return {"reproduced": bool(out), "mismatches": out[:5], "document": text}
+
+
+def scalar_bytes_wiring(a):
+    """C11 (validate's libyaml loader vs the serde loaders of `test` / the library): the bytes of a scalar event are EXACTLY the buffer
+    libyaml reports - `from_raw_parts(event.data.scalar.value, event.data.scalar.length)`, pointer and length of the same union member -
+    not a C-string reading of the pointer (which would stop at an embedded NUL) and not another member's length. FFI boundary: what
+    libyaml puts into the event is assumed, only the wiring on this side is decided."""
+    ex = a.exec(r"(?:(?:rules::)?libyaml::event::)?convert_event", {},
+                log=("from_raw_parts", "from_ptr", "to_bytes", "strlen", "optional_bytes", "from_bytes_until_nul", "from_bytes_with_nul"),
+                unroll=1, max_paths=20000, deepen=False)
+    a.fns.append("rules::libyaml::event::convert_event (scalar arm)")
+    ev = ex.arg_env["_1"]
+    SCALAR, VALUE, LENGTH = ".4", ".2", ".3"       # yaml_event_t.data (.1) . scalar (.4) . value (.2) / length (.3): unsafe-libyaml 0.2.x layout
+    import mirflow
+    bad, nsc = [], 0
+    for p in ex.paths:
+        r = p.ret
+        if not (p.outcome == "return" and r and r[0] == "variant" and r[2] == "Scalar"):
+            continue
+        nsc += 1
+        frp = calls(p, "from_raw_parts")
+        cstr = [e for e in p.events if e[0] == "call" and e[1] in ("from_ptr", "to_bytes", "strlen", "optional_bytes", "from_bytes_until_nul", "from_bytes_with_nul")]
+        if len(frp) != 1 or cstr or len(frp[0][2]) != 2 or frp[0][2][1][0] != "int":
+            bad.append(pc_term(p.pc))
+            continue
+        ptr_ok = mirflow.origin(ex, frp[0][2][0]) == (ev, [".1", SCALAR, VALUE])
+        # the length: the scalar member's own length field (a u64 -> usize cast of it)
+        dat = ex.proj.get((ev[1], ".1"))
+        sc = ex.proj.get((dat[1], SCALAR)) if dat else None
+        ln = ex.proj.get((sc[1], LENGTH)) if sc else None
+        good = f"(= {frp[0][2][1][1]} {ln[1]})" if (ptr_ok and ln is not None and ln[0] == "int") else "false"
+        bad.append(f"(and {pc_term(p.pc)} (not {good}))")
+    c = a.discharge("libyaml/convert_event/scalar-bytes", ex, bad,
+                    f"convert_event, scalar arm ({nsc} scalar-returning paths, one per scalar style x with / without source text): the value is built from "
+                    "from_raw_parts(<the event's scalar.value>, <the same scalar's length>) - the length libyaml reports, not the position of the "
+                    "first NUL byte - and from nothing else")
+    if c:
+        c["replay"] = replay_embedded_nul(a)
+        c["reproduced"] = c["replay"].get("reproduced", False)
+        a.candidates.append(c)
+
+
+def replay_embedded_nul(a):
+    """a string with an embedded U+0000 (JSON \\u0000, YAML "\\0") is the same string for validate (libyaml loader) and for `test` (serde)"""
+    import os, shutil, subprocess, tempfile
+    exe = a.cli()
+    if not exe:
+        return {"reproduced": False, "note": "native build failed"}
+    d = tempfile.mkdtemp(prefix="cfnverif_replay_")
+    out = []
+    try:
+        rules = "rule whole {\n  Name == /^ab.cd$/\n  Name != \"ab\"\n}\nrule key {\n  M[ keys == /^k.z$/ ] !empty\n}\n"
+        open(os.path.join(d, "r.guard"), "w").write(rules)
+        docs = {"d.json": '{"Name": "ab\\u0000cd", "M": {"k\\u0000z": 1}}\n', "d.yaml": 'Name: "ab\\0cd"\nM:\n  "k\\0z": 1\n',
+                "flow.yaml": '{Name: "ab\\x00cd", M: {"k\\0z": 1}}\n'}
+        for fn, text in docs.items():
+            open(os.path.join(d, fn), "w").write(text)
+            pr = subprocess.run([exe, "validate", "-r", os.path.join(d, "r.guard"), "-d", os.path.join(d, fn), "--show-summary", "none"],
+                                capture_output=True, text=True, timeout=60)
+            if pr.returncode != 0:
+                out.append({"document": text, "cmd": "validate", "expected_exit": 0, "observed_exit": pr.returncode, "output": (pr.stdout + pr.stderr)[-300:]})
+        open(os.path.join(d, "t.yaml"), "w").write('- name: c\n  input:\n    Name: "ab\\0cd"\n    M:\n      "k\\0z": 1\n  expectations:\n    rules:\n      whole: PASS\n      key: PASS\n')
+        pr = subprocess.run([exe, "test", "-r", os.path.join(d, "r.guard"), "-t", os.path.join(d, "t.yaml")], capture_output=True, text=True, timeout=60)
+        if pr.returncode != 0:
+            out.append({"cmd": "test", "expected_exit": 0, "observed_exit": pr.returncode, "output": (pr.stdout + pr.stderr)[-300:]})
+        return {"reproduced": bool(out), "mismatches": out, "rules_file": rules}
+    finally:
+        shutil.rmtree(d, ignore_errors=True)
+
+
+SITES = {"C11": [scalar_typing, type_ref, short_form_tables, serde_number_typing, short_form_loader_agreement, scalar_bytes_wiring], "C16": [serde_number_typing, short_form_loader_agreement], "C10": [scalar_typing]}
